@@ -6,6 +6,7 @@ import (
 	"go/token"
 	"go/types"
 	"math"
+	"sort"
 	"strings"
 
 	"golang.org/x/tools/go/ssa"
@@ -159,6 +160,7 @@ func checkC10(p *Prog, res *Result, tier string) {
 	res.rule("C10-R2", "all revision encodings use binary.BigEndian", 8)
 	res.rule("C10-R3", "separator <= '$'; index key = version key at revision 0", 2)
 	res.rule("C10-R4", "index values are 8 or 8+1 bytes; parser and scanner agree on the constants", 6)
+	res.rule("C10-R7", "range bounds built by the backend's range-style entry points (List, Count, GetPartitions, compaction) are index keys: EncodeObjectKey(.., 0)", 4)
 	res.rule("C10-R6", "constant revisions used to build internal keys (bounds of a key's versions) are 0 or the maximal uint64", 12)
 	res.rule("C10-R5", "partition bounds derived from internal keys stay contiguous and are realigned to index keys, so all records of one key stay in one scanned interval (C13-R5)", 2)
 
@@ -216,6 +218,8 @@ func checkC10(p *Prog, res *Result, tier string) {
 			res.und("C10-R6", "constant revisions", "-", "no internal key with a constant revision found")
 		}
 	}
+
+	checkRangeBoundsAreIndexKeys(p, r, res, "C10-R7")
 
 	cp := p.ssaPkg("pkg/backend/coder")
 	enc := p.implIn(r.EncObj, "pkg/backend/coder")
@@ -754,4 +758,145 @@ func encoderAppendChain(p *Prog, enc *ssa.Function, userKey *ssa.Parameter) (map
 		off = hi
 	}
 	return regs, off, shared, true
+}
+
+// checkRangeBoundsAreIndexKeys: a range [Key, End) of user keys is the range of internal keys from the index record of
+// Key up to, not including, the index record of End - the index record (revision 0) sorts before every version of its
+// key. Every bound that a range-style entry point of pkg/backend builds with EncodeObjectKey for the scanner or for
+// the engine's partition listing carries the constant revision 0: a bound at a revision above 0 also encloses the index
+// record and the older versions of End (or excludes those of Key), and List, Count and GetPartitions stop agreeing.
+func checkRangeBoundsAreIndexKeys(p *Prog, r *Roles, res *Result, rule string) {
+	bp := p.ssaPkg("pkg/backend")
+	scan := map[*types.Func]bool{}
+	for _, m := range []string{"Range", "Count", "RangeStream", "Compact"} {
+		if f := p.ifaceMethod("pkg/backend/scanner", "Scanner", m); f != nil {
+			scan[f] = true
+		}
+	}
+	scan[r.KVGetPartitions] = true
+	n := 0
+	var fs []*ssa.Function
+	for _, f := range p.AllFuncs {
+		if f.Pkg == bp && f.Blocks != nil && f.Synthetic == "" {
+			fs = append(fs, f)
+		}
+	}
+	sort.Slice(fs, func(i, j int) bool { return funcName(fs[i]) < funcName(fs[j]) })
+	for _, f := range fs {
+		k := 0
+		for _, c := range callsIn(f) {
+			if !c.Common().IsInvoke() || !scan[c.Common().Method] {
+				continue
+			}
+			for ai, a := range c.Common().Args {
+				enc, ok := resolve(a).(*ssa.Call)
+				if !ok || !r.is(enc, r.EncObj) {
+					continue
+				}
+				k++
+				n++
+				construct := fmt.Sprintf("%s: range bound #%d (%s argument %d) is an index key", funcName(f), k, c.Common().Method.Name(), ai)
+				if isZeroConst(argForSigParam(enc, 1)) {
+					res.ok(rule, construct, p.pos(enc.Pos()), "EncodeObjectKey(.., 0)")
+				} else {
+					res.bad(rule, construct, p.pos(enc.Pos()), "a range bound is encoded at a revision other than the constant 0: the interval also encloses (or loses) the index record and older versions of the boundary key, so this entry point counts or lists a key its siblings leave out")
+				}
+			}
+		}
+	}
+	if n == 0 {
+		res.und(rule, "pkg/backend: range bounds", "-", "no encoded range bound found")
+	}
+}
+
+// checkIterTimestamps: revisions and engine timestamps are different clocks (revisions are seeded from the engine's
+// clock when a leader starts and then grow by one per write; TiKV's timestamps grow with wall-clock time). The
+// timestamp operand of KvStorage.Iter outside the adapters is the constant 0 ("latest") or a value obtained from
+// GetTimestampOracle (directly, or through a field every store of which is such a value) - never a revision: TiKV
+// would read a snapshot that lies before every write of the current term, the other engines ignore the operand.
+func checkIterTimestamps(p *Prog, r *Roles, res *Result, rule string) {
+	var isTS func(v ssa.Value, d int, seen map[ssa.Value]bool) bool
+	isTS = func(v ssa.Value, d int, seen map[ssa.Value]bool) bool {
+		if d > 8 {
+			return false
+		}
+		for _, x := range resolveAll(v) {
+			x = p.resolveDeep(x)
+			if seen[x] {
+				continue
+			}
+			seen[x] = true
+			if isZeroConst(x) {
+				continue
+			}
+			if call, idx, ok := extractOf(x); ok && idx == 0 && r.is(call, r.KVGetTSO) {
+				continue
+			}
+			var fv *types.Var
+			switch y := x.(type) {
+			case *ssa.UnOp:
+				if fa, ok := y.X.(*ssa.FieldAddr); ok && y.Op == token.MUL {
+					fv = fieldOf(fa)
+				}
+			case *ssa.Field:
+				fv = fieldOfField(y)
+			case *ssa.Parameter:
+				acts := p.paramActuals(y)
+				if len(acts) == 0 {
+					return false
+				}
+				for _, a := range acts {
+					if !isTS(a, d+1, seen) {
+						return false
+					}
+				}
+				continue
+			}
+			if fv == nil || fv.Pkg() == nil || !strings.HasPrefix(fv.Pkg().Path(), modPath) {
+				return false
+			}
+			stores := p.fields().stores[fv]
+			if len(stores) == 0 {
+				return false
+			}
+			for _, st := range stores {
+				if !isTS(st.Val, d+1, seen) {
+					return false
+				}
+			}
+		}
+		return true
+	}
+	n := 0
+	var fs []*ssa.Function
+	for _, f := range p.AllFuncs {
+		if f.Pkg == nil || f.Blocks == nil || f.Synthetic != "" {
+			continue
+		}
+		pp := f.Pkg.Pkg.Path()
+		if strings.HasPrefix(pp, modPath+"/pkg/") && !strings.HasPrefix(pp, modPath+"/pkg/storage") {
+			fs = append(fs, f)
+		}
+	}
+	sort.Slice(fs, func(i, j int) bool { return funcName(fs[i]) < funcName(fs[j]) })
+	for _, f := range fs {
+		k := 0
+		for _, c := range callsIn(f) {
+			if !c.Common().IsInvoke() || !r.is(c, r.KVIter) {
+				continue
+			}
+			k++
+			n++
+			construct := fmt.Sprintf("%s: snapshot timestamp of iterator #%d", funcName(f), k)
+			ts := argForSigParam(c, 3)
+			if isTS(ts, 0, map[ssa.Value]bool{}) {
+				res.ok(rule, construct, p.pos(c.Pos()), "constant 0 or a value of GetTimestampOracle")
+			} else {
+				res.bad(rule, construct, p.pos(c.Pos()), "the timestamp operand of the engine iterator is not a timestamp of the engine's oracle (a revision?): an engine with timestamped snapshots reads a snapshot unrelated to the requested revision - on TiKV one that lies before every write of the current term - while the other engines ignore the operand")
+			}
+		}
+	}
+	if n == 0 {
+		res.und(rule, "engine iterators outside the adapters", "-", "none found")
+	}
 }
